@@ -146,71 +146,17 @@ Proof.
   apply Z.eqb_eq in E. congruence.
 Qed.
 
-(* element-wise binary operations: numpy broadcasting answers mismatched shapes *)
-Definition tensor_binop_stmt : Prop := forall s u, guard_tensor_binop s u = decide (pre_tensor_binop s u).
-Theorem tensor_binop_refuted : ~ tensor_binop_stmt.
-Proof. intros H. specialize (H [2; 3] [1; 3]). vm_compute in H. discriminate. Qed.
-
+(* element-wise binary operations: tenfun_binary compares the shapes before numpy sees them (C19-N02 repaired) *)
 Lemma bcast_rev_refl a : bcast_rev a a = true.
 Proof. induction a as [|x a IH]; [reflexivity|]. cbn. now rewrite Z.eqb_refl, IH. Qed.
 
-Theorem tensor_binop_accepts s u : pre_tensor_binop s u = true -> guard_tensor_binop s u = Ok tt.
+Theorem tensor_binop_decides s u : guard_tensor_binop s u = decide (pre_tensor_binop s u).
 Proof.
-  unfold pre_tensor_binop, guard_tensor_binop, np_broadcast_ok. intros H. apply shape_eqb_eq in H. subst.
-  now rewrite bcast_rev_refl.
+  apply decide_by. unfold guard_tensor_binop, pre_tensor_binop, np_broadcast_ok. okb.
+  destruct (shape_eqb s u) eqn:E; [|reflexivity]. apply shape_eqb_eq in E. subst. now rewrite bcast_rev_refl.
 Qed.
 
-(* partial rejection: same number of modes and no mode of size 1 on either side *)
-Lemma bcast_rev_no_ones a b : length a = length b -> forallb (fun x => negb (x =? 1)) a = true ->
-  forallb (fun x => negb (x =? 1)) b = true -> bcast_rev a b = true -> a = b.
-Proof.
-  revert b. induction a as [|x a IH]; intros [|y b] Hl Ha Hb H; try discriminate; [reflexivity|].
-  cbn in *. apply andb_true_iff in Ha as [Hx Ha]. apply andb_true_iff in Hb as [Hy Hb]. apply andb_true_iff in H as [E H].
-  apply negb_true_iff in Hx, Hy. rewrite Hx, Hy, !orb_false_r in E. apply Z.eqb_eq in E. subst. f_equal.
-  apply IH; auto.
-Qed.
-
-Theorem tensor_binop_rejects_partial s u :
-  length s = length u -> forallb (fun x => negb (x =? 1)) s = true -> forallb (fun x => negb (x =? 1)) u = true ->
-  pre_tensor_binop s u = false -> guard_tensor_binop s u = Err.
-Proof.
-  intros Hl Hs Hu Hp. unfold guard_tensor_binop, np_broadcast_ok.
-  destruct (bcast_rev (rev s) (rev u)) eqn:E; [|reflexivity]. exfalso.
-  apply bcast_rev_no_ones in E.
-  - assert (s = u) by (rewrite <- (rev_involutive s), <- (rev_involutive u); now f_equal). subst.
-    unfold pre_tensor_binop in Hp. now rewrite shape_eqb_refl in Hp.
-  - now rewrite !rev_length.
-  - rewrite forallb_forall in *. intros x Hx. apply Hs. now apply in_rev.
-  - rewrite forallb_forall in *. intros x Hx. apply Hu. now apply in_rev.
-Qed.
-
-(* contract: negative modes wrap around on a 2-way tensor *)
-Definition tensor_contract_stmt : Prop :=
-  forall s i1 i2, guard_tensor_contract s i1 i2 = decide (pre_tensor_contract s i1 i2).
-Theorem tensor_contract_refuted : ~ tensor_contract_stmt.
-Proof. intros H. specialize (H [3; 3] (-1) 0). vm_compute in H. discriminate. Qed.
-
-(* every ill-formed request with non-negative modes is rejected *)
-Theorem tensor_contract_rejects_partial s i1 i2 : 0 <= i1 -> 0 <= i2 ->
-  pre_tensor_contract s i1 i2 = false -> guard_tensor_contract s i1 i2 = Err.
-Proof.
-  intros H1 H2 Hp. unfold guard_tensor_contract, pre_tensor_contract in *.
-  rewrite !np_idx_ok_nonneg, !szw_nonneg by auto.
-  destruct (in_range (ndim s) i1); [|reflexivity]. destruct (in_range (ndim s) i2); [|reflexivity].
-  cbn in Hp |- *. destruct (sz s i1 =? sz s i2); cbn; [|reflexivity].
-  destruct (i1 =? i2); cbn in *; [reflexivity|discriminate].
-Qed.
-
-Theorem tensor_contract_accepts_2way s i1 i2 : ndim s = 2 ->
-  pre_tensor_contract s i1 i2 = true -> guard_tensor_contract s i1 i2 = Ok tt.
-Proof.
-  intros HN Hp. unfold guard_tensor_contract, pre_tensor_contract in *.
-  apply andb_true_iff in Hp as [Hp Hsz]. apply andb_true_iff in Hp as [Hp Hne]. apply andb_true_iff in Hp as [Hr1 Hr2].
-  assert (0 <= i1 /\ 0 <= i2) as [A B].
-  { unfold in_range in *. apply andb_true_iff in Hr1 as [Hr1 _]. apply andb_true_iff in Hr2 as [Hr2 _].
-    apply Z.leb_le in Hr1, Hr2. lia. }
-  rewrite !np_idx_ok_nonneg, !szw_nonneg by auto. rewrite Hr1, Hr2, Hsz, Hne. cbn. now rewrite HN.
-Qed.
+(* contract: Proofs/C19Ttv.v (needs the complement/permutation facts) *)
 
 (* ======================================================================================== *)
 (* shared request shapes                                                                      *)
@@ -308,25 +254,22 @@ Lemma forallb_is_ok_chk {A} (f : A -> bool) l : forallb (fun x => is_ok (chk (f 
 Proof. apply forallb_ext_in. intros x _. apply is_ok_chk. Qed.
 
 (* ---- sptensor ---- *)
-Definition sptensor_innerprod_stmt : Prop :=
-  forall s e u, guard_sptensor_innerprod s e u = decide (pre_sptensor_innerprod s e u).
-Theorem sptensor_innerprod_refuted : ~ sptensor_innerprod_stmt.
-Proof. intros H. specialize (H [2; 3] true [3; 2]). vm_compute in H. discriminate. Qed.
-Theorem sptensor_innerprod_partial s u : guard_sptensor_innerprod s false u = decide (pre_sptensor_innerprod s false u).
-Proof. reflexivity. Qed.
+Theorem sptensor_innerprod_decides s e u : guard_sptensor_innerprod s e u = decide (pre_sptensor_innerprod s e u).
+Proof.
+  apply decide_by. unfold guard_sptensor_innerprod, pre_sptensor_innerprod. okb.
+  destruct (shape_eqb s u), e; reflexivity.
+Qed.
 
 (* ---- ktensor ---- *)
 Theorem ktensor_ctor_decides ms w : guard_ktensor_ctor ms w = decide (pre_ktensor_ctor ms w).
 Proof. apply decide_by. unfold guard_ktensor_ctor, pre_ktensor_ctor. destruct w; okb; [reflexivity|]. cbn. now rewrite andb_true_r. Qed.
 
-Definition ktensor_arrange_stmt : Prop := forall R p, guard_ktensor_arrange R p = decide (pre_ktensor_arrange R p).
-Theorem ktensor_arrange_refuted : ~ ktensor_arrange_stmt.
-Proof. intros H. specialize (H 2 [0; 0]). vm_compute in H. discriminate. Qed.
-Theorem ktensor_arrange_partial R p : (forall x, In x p -> 0 <= x) -> nodupb p = true ->
-  guard_ktensor_arrange R p = decide (pre_ktensor_arrange R p).
+Theorem ktensor_arrange_decides R p : guard_ktensor_arrange R p = decide (pre_ktensor_arrange R p).
 Proof.
-  intros Hnn Hd. apply decide_by. unfold guard_ktensor_arrange, pre_ktensor_arrange, is_permb, modes_ok. okb.
-  rewrite Hd, andb_true_r. f_equal. apply forallb_ext_in. intros x Hx. apply np_idx_ok_nonneg; auto.
+  apply decide_by. unfold guard_ktensor_arrange, pre_ktensor_arrange. okb.
+  destruct (Z.eqb_spec (zlen p) R) as [E|E]; cbn [andb].
+  - rewrite sorted_perm_bool by (subst R; unfold zlen; lia). reflexivity.
+  - unfold is_permb. destruct (Z.eqb_spec (zlen p) R); [contradiction|reflexivity].
 Qed.
 
 Theorem ktensor_extract_decides R idx : guard_ktensor_extract R idx = decide (pre_ktensor_extract R idx).
@@ -344,22 +287,15 @@ Proof.
   now rewrite (Z.eqb_sym (ndim core)).
 Qed.
 
-(* ---- sptenmat (A-44) ---- *)
-Definition sptenmat_ctor_stmt : Prop :=
-  forall mr mc rd cd ts, guard_sptenmat_ctor mr mc rd cd ts = decide (pre_sptenmat_ctor mr mc rd cd ts).
-Theorem sptenmat_ctor_refuted : ~ sptenmat_ctor_stmt.
-Proof. intros H. specialize (H 2 1 [0] [1] [2; 2]). vm_compute in H. discriminate. Qed.
-Theorem sptenmat_ctor_partial mr mc rd cd ts :
-  mr <> zprod (pickz ts rd) -> mc <> zprod (pickz ts cd) ->
+(* ---- sptenmat (A-44 repaired) ---- *)
+Theorem sptenmat_ctor_decides mr mc rd cd ts :
   guard_sptenmat_ctor mr mc rd cd ts = decide (pre_sptenmat_ctor mr mc rd cd ts).
 Proof.
-  intros Hr Hc. apply decide_by. unfold guard_sptenmat_ctor, pre_sptenmat_ctor. okb.
+  apply decide_by. unfold guard_sptenmat_ctor, pre_sptenmat_ctor. okb.
   rewrite sorted_perm_bool by (unfold ndim, zlen; lia).
   replace ((zlen (rd ++ cd) =? ndim ts) && is_permb (ndim ts) (rd ++ cd)) with (is_permb (ndim ts) (rd ++ cd))
     by (unfold is_permb; now rewrite andb_assoc, andb_diag).
-  rewrite <- andb_assoc. f_equal.
-  destruct (Z.leb_spec mr (zprod (pickz ts rd))), (Z.ltb_spec mr (zprod (pickz ts rd))),
-           (Z.leb_spec mc (zprod (pickz ts cd))), (Z.ltb_spec mc (zprod (pickz ts cd))); cbn; try reflexivity; lia.
+  now rewrite andb_assoc.
 Qed.
 
 (* ---- tenmat / sumtensor / khatrirao / import_data ---- *)
